@@ -2,16 +2,20 @@
 //
 // Op line (one complete transaction build + sign + validate):
 //
-//	tx <keys> <inputs> <sigs> <mut> <h160 table> <sha256 table>
+//	tx <keys> <inputs> <sigs> <mut> <h160 table> <sha256 table> <flow>
 //
 //	keys    sk:pk:hash160(pk),...                 key 0 is the wallet key
-//	inputs  add:lock:value:redeem:label,...  | -  add = pkh|sh (builder method), lock = locking
+//	inputs  add:lock:value:redeem:label:grp,...  | -  add = pkh|sh (builder method), lock = locking
 //	        script the chain reports, redeem = redeemScript argument (- = empty),
 //	        label = w (proper wallet/deposit input) | x (addable, not the wallet's) | m (class mismatch)
+//	        grp = previous-transaction group: inputs with the same grp spend different outputs of
+//	        ONE previous transaction (output index = input position), others have their own
 //	sigs    signer:claimed:digest:flavor,... | -  key that signs, key put into the container,
 //	        index of the signature hash that is signed, flavor good|bad|highs
 //	mut     none | amt:i | pk:i | dropredeem:i | extra:i   tampering with the *signed* transaction
 //	        before it is handed to the script engine (validates the interpreter model on rejects)
+//	flow    plain | recompute   recompute = ComputeSignatureHashes, then a second AddOutput, then
+//	        ComputeSignatureHashes again; the second result is signed (the builder is stateful)
 //	tables  data:hash,... | -                     HASH160 / SHA256 of the redeem scripts (facts about
 //	        the external hash functions for the Lean model)
 //
@@ -129,6 +133,7 @@ func gen(r *hx.Rng, n int, tier string) []string {
 		var h160Order, shaOrder []string
 		var ins []string
 		anyBadInput := false
+		shareGroups := r.Chance(1, 3)
 		for i := 0; i < ni; i++ {
 			value := int64(r.Range(1000, 100000000))
 			if r.Chance(1, 10) {
@@ -202,7 +207,11 @@ func gen(r *hx.Rng, n int, tier string) []string {
 					shaOrder = append(shaOrder, k)
 				}
 			}
-			ins = append(ins, fmt.Sprintf("%s:%s:%d:%s:%s", add, hx2(lock), value, hx2(redeem), label))
+			grp := i
+			if shareGroups && i > 0 && r.Chance(2, 3) {
+				grp = r.Intn(i) // same previous transaction as an earlier input
+			}
+			ins = append(ins, fmt.Sprintf("%s:%s:%d:%s:%s:%d", add, hx2(lock), value, hx2(redeem), label, grp))
 		}
 		// signatures
 		var sigs []string
@@ -250,8 +259,12 @@ func gen(r *hx.Rng, n int, tier string) []string {
 		for _, k := range shaOrder {
 			t2 = append(t2, k+":"+sha2[k])
 		}
+		flow := "plain"
+		if r.Chance(1, 4) {
+			flow = "recompute"
+		}
 		ops = append(ops, strings.Join([]string{"tx", hx.JoinStrs(keyToks), hx.JoinStrs(ins), hx.JoinStrs(sigs), mut,
-			hx.JoinStrs(t1), hx.JoinStrs(t2)}, " "))
+			hx.JoinStrs(t1), hx.JoinStrs(t2), flow}, " "))
 	}
 	return ops
 }
@@ -292,6 +305,7 @@ type inSpec struct {
 	value  int64
 	redeem []byte
 	label  string
+	grp    int
 }
 
 func classifyBuildErr(err error, i int) string {
@@ -361,7 +375,7 @@ func pushes(script []byte) ([][2][]byte, bool) {
 
 func exec(op string) (string, string) {
 	f := strings.Fields(op)
-	if len(f) != 7 || f[0] != "tx" {
+	if len(f) != 8 || f[0] != "tx" {
 		return "bad-op", "bad"
 	}
 	var privs []*btcec.PrivateKey
@@ -374,24 +388,39 @@ func exec(op string) (string, string) {
 	for _, it := range hx.SplitList(f[2]) {
 		p := strings.Split(it, ":")
 		v, _ := strconv.ParseInt(p[2], 10, 64)
-		ins = append(ins, inSpec{p[0], unhex(p[1]), v, unhex(p[3]), p[4]})
+		ins = append(ins, inSpec{p[0], unhex(p[1]), v, unhex(p[3]), p[4], hx.Atoi(p[5])})
 	}
 	chain := &fakeChain{txs: map[bitcoin.Hash]*bitcoin.Transaction{}}
 	builder := bitcoin.NewTransactionBuilder(chain)
 	tags := map[string]bool{}
 	var total int64
+	// previous transactions: one per group, with one output per input of the group at the
+	// input's position (distinct output indexes within one previous transaction)
+	groupTx := map[int]*bitcoin.Transaction{}
+	groupHash := map[int]bitcoin.Hash{}
+	shared := map[int]int{}
 	for i, in := range ins {
-		var h bitcoin.Hash
-		copy(h[:], sha([]byte(fmt.Sprintf("in%d %s", i, op))))
-		idx := uint32(i % 3)
-		prev := &bitcoin.Transaction{Version: 1}
-		for j := uint32(0); j <= idx; j++ {
+		shared[in.grp]++
+		prev, ok := groupTx[in.grp]
+		if !ok {
+			prev = &bitcoin.Transaction{Version: 1}
+			groupTx[in.grp] = prev
+			var h bitcoin.Hash
+			copy(h[:], sha([]byte(fmt.Sprintf("prev%d %s", in.grp, op))))
+			groupHash[in.grp] = h
+			chain.txs[h] = prev
+		}
+		for len(prev.Outputs) <= i {
 			prev.Outputs = append(prev.Outputs, &bitcoin.TransactionOutput{Value: 1, PublicKeyScript: []byte{0x51}})
 		}
-		prev.Outputs[idx] = &bitcoin.TransactionOutput{Value: in.value, PublicKeyScript: in.lock}
-		chain.txs[h] = prev
+		prev.Outputs[i] = &bitcoin.TransactionOutput{Value: in.value, PublicKeyScript: in.lock}
+	}
+	for i, in := range ins {
+		if shared[in.grp] > 1 {
+			tags["sharedprev"] = true
+		}
 		utxo := &bitcoin.UnspentTransactionOutput{
-			Outpoint: &bitcoin.TransactionOutpoint{TransactionHash: h, OutputIndex: idx},
+			Outpoint: &bitcoin.TransactionOutpoint{TransactionHash: groupHash[in.grp], OutputIndex: uint32(i)},
 			Value:    in.value,
 		}
 		var err error
@@ -408,6 +437,14 @@ func exec(op string) (string, string) {
 	}
 	outScript, _ := bitcoin.PayToWitnessPublicKeyHash([20]byte{9, 9, 9})
 	builder.AddOutput(&bitcoin.TransactionOutput{Value: total / 2, PublicKeyScript: outScript})
+	if f[7] == "recompute" {
+		// hashes requested, then the transaction still changes, then hashes requested again
+		if _, err := builder.ComputeSignatureHashes(); err != nil {
+			return classifyBuildErr(err, -1), "sighasherr"
+		}
+		builder.AddOutput(&bitcoin.TransactionOutput{Value: total / 4, PublicKeyScript: outScript})
+		tags["recompute"] = true
+	}
 
 	hashes, err := builder.ComputeSignatureHashes()
 	if err != nil {
@@ -564,7 +601,7 @@ func exec(op string) (string, string) {
 	}
 	var ts []string
 	for _, k := range []string{"pubkeyhash", "witness_v0_keyhash", "scripthash", "witness_v0_scripthash", "accept", "reject",
-		"sig-bad", "sig-highs", "sig-mismatch", "mut-amt", "mut-pk", "mut-dropredeem", "mut-extra"} {
+		"sig-bad", "sig-highs", "sig-mismatch", "sharedprev", "recompute", "mut-amt", "mut-pk", "mut-dropredeem", "mut-extra"} {
 		if tags[k] {
 			ts = append(ts, k)
 		}
